@@ -202,7 +202,8 @@ fn confirm_from(jump: Option<i32>, symbolic_slots: Option<&[usize]>, last_fixed:
         } else {
             pre[i]
         };
-        assert!(slot.messages_count == expect.messages_count && slot.received == expect.received);
+        assert!(slot.messages_count == expect.messages_count);
+        assert!(slot.received == expect.received);
         if i >= 61 && slot.messages_count == 4 {
             edge_tracked = true;
         }
